@@ -339,7 +339,7 @@ CODE_ACTIONS = ["keep", "del", "src1", "src2", "src3", "src4", "src6", "src7", "
                 "md_edit", "md_add", "md_del", "md_collapsed", "id", "dup", "to_md"]
 MD_ACTIONS = ["keep", "del", "src1", "src2", "src3", "src4", "src6", "md_edit", "md_add",
               "att_add", "att_del", "att_edit", "att_rename", "id", "dup", "att_edit_1", "md_edit_2024",
-              "md_edit_note", "md_empty_add", "md_empty_set", "unstale_edit"]
+              "md_edit_note", "md_empty_add", "md_empty_set", "unstale_edit", "to_code", "to_code_src"]
 
 
 def _edit_output(ctx, out, variant, tag):
@@ -607,6 +607,17 @@ def apply_action(ctx, cell, action, tag):
             return [cell]
         c = {"cell_type": "markdown", "metadata": dict(cell["metadata"]), "source": cell["source"],
              "_src": fam}
+        if "id" in cell:
+            c["id"] = cell["id"]
+        return [c]
+    if action in ("to_code", "to_code_src"):
+        # a markdown cell turned into a code cell (never run, or run: a fresh prompt number)
+        if t != "markdown":
+            return [cell]
+        c = {"cell_type": "code", "metadata": dict(cell["metadata"]), "outputs": [],
+             "source": cell["source"], "execution_count": ctx.ec(tag), "_src": fam}
+        if action == "to_code_src" and fam is not None:
+            c["source"] = SRC[fam][1]
         if "id" in cell:
             c["id"] = cell["id"]
         return [c]
